@@ -105,6 +105,18 @@ inline std::string jstr(const std::string& s) {
   }
   return o + "\"";
 }
+// a long that may be read by the monitor thread while the main thread writes it
+struct RelaxedLong {
+  std::atomic<long> v{-1};
+  operator long() const { return v.load(std::memory_order_relaxed); }
+  RelaxedLong& operator=(long x) {
+    v.store(x, std::memory_order_relaxed);
+    return *this;
+  }
+  long load(std::memory_order = std::memory_order_relaxed) const { return v.load(std::memory_order_relaxed); }
+  void store(long x, std::memory_order = std::memory_order_relaxed) { v.store(x, std::memory_order_relaxed); }
+};
+
 // tiny JSON object builder: J().kv("a",1).kv("b","x").str()
 struct J {
   std::string s;
@@ -140,6 +152,7 @@ struct J {
     s += std::to_string(v);
     return *this;
   }
+  J& kv(const char* k, const RelaxedLong& v) { return kv(k, (long)v); }
   J& raw(const char* k, const std::string& json) {
     key(k);
     s += json;
@@ -365,7 +378,7 @@ struct Harness {
   std::string outPath;
   FILE* out = nullptr;
   std::map<std::string, std::string> params;
-  long curCase = -1;
+  RelaxedLong curCase;
   std::string curParams;
   double caseT0 = 0;
   std::atomic<bool> monitorStop{false};
@@ -450,7 +463,7 @@ struct Harness {
   }
 
   void begin(long k, const std::string& paramsJson) {
-    curCase   = k;
+    curCase.store(k, std::memory_order_relaxed);
     curParams = paramsJson;
     caseT0    = now_s();
     line(J().kv("ev", "begin").kv("case", k).raw("params", paramsJson).str());
@@ -461,16 +474,16 @@ struct Harness {
     perturb_off();
     line(J().kv("ev", "end").kv("case", k).kv("sig", sig).kv("nontrivial", nontrivial)
              .kv("wall_s", now_s() - caseT0).raw("obs", obsJson).str());
-    curCase = -1;
+    curCase.store(-1, std::memory_order_relaxed);
   }
   // an oracle violation in the current case (case continues / ends normally)
   void violation(const std::string& key, const std::string& detailJson) {
     ++nViolations;
-    line(J().kv("ev", "violation").kv("case", curCase).kv("key", key)
+    line(J().kv("ev", "violation").kv("case", curCase.load(std::memory_order_relaxed)).kv("key", key)
              .raw("params", curParams.empty() ? "{}" : curParams).raw("detail", detailJson).str());
   }
   void note(const std::string& what, const std::string& json) {
-    line(J().kv("ev", "note").kv("case", curCase).kv("what", what).raw("data", json).str());
+    line(J().kv("ev", "note").kv("case", curCase.load(std::memory_order_relaxed)).kv("what", what).raw("data", json).str());
   }
 
   // ------------------------------------------------------------ hang monitor
@@ -515,7 +528,7 @@ struct Harness {
     uint64_t spinAccum[MAXT] = {};
     while (!monitorStop.load(std::memory_order_relaxed)) {
       usleep(500000);
-      if (curCase < 0) {
+      if (curCase.load(std::memory_order_relaxed) < 0) {
         quiet = 0;
         prev.clear();
         continue;
@@ -609,7 +622,7 @@ struct Harness {
       d.kv("detail", hangDetail());
     d.raw("threads", thr);
     violation(hangKey, d.str());
-    line(J().kv("ev", "hang_exit").kv("case", curCase).str());
+    line(J().kv("ev", "hang_exit").kv("case", curCase.load(std::memory_order_relaxed)).str());
     if (out && out != stdout)
       fflush(out);
     _exit(3);
